@@ -4,7 +4,7 @@ from pyvc.contracts import Registry
 
 def build():
     R = Registry()
-    from . import theory, c_cropping_batch, c_cropping_reap, c_stats, c_runner, c_prepare, c_labels, c_cropping_grow, c_cropping_progress, c_fs, c_manage, c_format, c_sampler, c_concurrency, c_missing
+    from . import theory, c_cropping_batch, c_cropping_reap, c_stats, c_runner, c_prepare, c_labels, c_cropping_grow, c_cropping_progress, c_fs, c_manage, c_format, c_sampler, c_concurrency, c_missing, c_cluster
     theory.install(R)
     c_cropping_batch.install(R)
     c_cropping_reap.install(R)
@@ -49,6 +49,7 @@ def build():
     c_missing.install(R)
     c_missing.install2(R)
     c_missing.install_meta(R)
+    c_cluster.install(R)
     # bounded stand-ins on the real code that run with the quick tier (labelled bounded in the evidence, never counted as discharged)
     for pid, what in {
         "C01": "grid sweeps on the real code (replay/C01.py: 384 configurations: 1-3 arguments, sequential / thread pool / process pool / apply_async conventions, "
